@@ -106,7 +106,7 @@ def run_shards(prop: str, tier: str, seed: int, nshards: int, timeout_s: float, 
 
 def merge(results: list[dict[str, Any]]) -> dict[str, Any]:
     m: dict[str, Any] = {"evaluations": 0, "distinct": set(), "nontrivial": set(), "counters": {},
-                         "violations": [], "samples": [], "inconclusive": [], "sets": {}}
+                         "violations": [], "samples": [], "inconclusive": [], "sets": {}, "sigcounts": {}}
     for r in results:
         m["evaluations"] += r["evaluations"]
         m["distinct"].update(r["distinct"])
@@ -122,6 +122,8 @@ def merge(results: list[dict[str, Any]]) -> dict[str, Any]:
         m["inconclusive"].extend(r["inconclusive"])
         for k, v in r["sets"].items():
             m["sets"].setdefault(k, set()).update(v)
+        for k, v in r.get("sigcounts", {}).items():
+            m["sigcounts"][k] = m["sigcounts"].get(k, 0) + v
     return m
 
 
@@ -172,6 +174,18 @@ def main(argv: list[str] | None = None) -> int:
             known.setdefault(f["id"], []).append(v)
         else:
             new.append(v)
+    # extent monitor: a known finding is identified by its mechanism AND the inputs it was recorded on. Where a workload is
+    # exhaustive and deterministic (so the number of affected cases is a fixed number on the recorded tree), more affected
+    # cases than recorded means new failing inputs: a different violation of the same property, reported as such.
+    if not args.replay:
+        for f in findings.get("open", []):
+            ext = (f.get("extent") or {}).get(tier) if f["property"] == prop else None
+            for sig, recorded in (ext or {}).items():
+                seen_n = m["sigcounts"].get(sig, 0)
+                if seen_n > recorded:
+                    new.append({"sig": f"extent_grew:{f['id']}:{sig}", "features": [], "detail":
+                                f"{sig} observed {seen_n}x, recorded extent of {f['id']} on this workload is {recorded}",
+                                "case": {"finding": f["id"], "signature": sig, "observed": seen_n, "recorded": recorded}})
     # group new violations by signature: one replay per distinct signature
     by_sig: dict[str, list[dict[str, Any]]] = {}
     for v in new:
@@ -202,6 +216,7 @@ def main(argv: list[str] | None = None) -> int:
         "observed_sets": {k: sorted(v)[:60] for k, v in m["sets"].items()},
         "observed_set_sizes": {k: len(v) for k, v in m["sets"].items()},
         "known_findings_observed": {k: len(v) for k, v in known.items()},
+        "signature_counts_uncapped": dict(sorted(m["sigcounts"].items())),
         "new_violation_signatures": sorted(by_sig)[:50],
         "inconclusive_reasons": m["inconclusive"][:20],
         "shards": nshards,
